@@ -2,7 +2,7 @@
    the user was handed never changes a stored iteration, for ALL op lists (writes included) *)
 From Coq Require Import List Bool Arith NArith.
 Import ListNotations.
-From EFModel Require Import C15_IterStore.
+From EFModel Require Import C15_IterStore C15_MemDisk C15_MemDiskW.
 From EFP Require Import Gen_C15 C15_store.
 
 Lemma all_deep : forallb deep_read all_cfgs = true.
@@ -32,6 +32,14 @@ Proof.
   intros c H ops k i x. apply no_alias_backward_at; [apply all_cfgs_ok; auto|].
   pose proof all_deep as A. rewrite forallb_forall in A. auto.
 Qed.
+(* memory store = disk store for ALL op lists, user writes included (the source deep-copies on read) *)
+Theorem C15_mem_disk_equiv_writes : forall c, In c all_cfgs -> forall ops1 ops2, map strip ops1 = map strip ops2 ->
+  absw (reach c ops1) = absw (reach c ops2) /\ store_vals c (reach c ops1) = store_vals c (reach c ops2).
+Proof.
+  intros c H ops1 ops2 E. apply mem_disk_equiv_writes; auto; [apply all_cfgs_ok; auto|].
+  pose proof all_deep as A. rewrite forallb_forall in A. auto.
+Qed.
+Print Assumptions C15_mem_disk_equiv_writes.
 Print Assumptions C15_no_alias_backward_at.
 Print Assumptions C15_no_alias_backward.
 Print Assumptions C15_restore_exact_with_writes.
